@@ -443,6 +443,16 @@ func c19Worker(sh *explore.Shard) {
 			}()
 		}
 		sh.C.Nontrivial++
+		kind := "plain-ascii"
+		for _, c := range []byte(sc.Desc) {
+			if c < 0x20 || c >= 0x7f || c == '"' || c == '\\' {
+				kind = "special-bytes"
+			}
+		}
+		if strings.Contains(sc.Desc, " bytes)") {
+			kind = "long"
+		}
+		sh.C.Outcome(fmt.Sprintf("%s/cfg=%v/root=%v", kind, cfg != nil, rootName != ""))
 	}
 	// (1) special names in tree entries: every name as directory, as file, and every pair at reduced alphabet
 	for i, dn := range names {
